@@ -207,6 +207,12 @@ class HighsStub(Tracked):
 
 
 class HighspyMod:
+    class Highs:
+        @staticmethod
+        def resetGlobalScheduler(blocking=True):
+            """A1: affects only HiGHS' thread pool, no model data"""
+            return None
+
     class ObjSense:
         kMinimize = "kMinimize"
         kMaximize = "kMaximize"
@@ -946,11 +952,18 @@ def u_status():
     def h(c, f):
         me = SW()
         me.did_timeout = Sym(z3.Bool("did_timeout"))
+        flag0 = me.did_timeout
         r = f(me)
         if isinstance(r, str):
             r = Sym(z3.StringVal(r))
-        c.prove("post:custom-timeout=>kTimeLimit", z3.Implies(me.did_timeout.t, r.t == z3.StringVal("kTimeLimit")), prop="C13")
-        c.prove("post:otherwise-solver-status-name", z3.Implies(z3.Not(me.did_timeout.t), r.t == me.solver.status_name.t), prop="C13")
+        c.prove("post:custom-timeout=>kTimeLimit", z3.Implies(flag0.t, r.t == z3.StringVal("kTimeLimit")), prop="C13")
+        c.prove("post:otherwise-solver-status-name", z3.Implies(z3.Not(flag0.t), r.t == me.solver.status_name.t), prop="C13")
+        # frame: a status query is read-only, so every later query of the same run reports the same status (callers query several times)
+        c.prove("post:status-query-leaves-the-timeout-flag-unchanged", lift(me.did_timeout) == flag0.t, prop="C13")
+        r2 = f(me)
+        if isinstance(r2, str):
+            r2 = Sym(z3.StringVal(r2))
+        c.prove("post:repeated-status-queries-agree", r2.t == r.t, prop="C13")
 
     def h2(c, f):
         me = SW()
